@@ -93,7 +93,10 @@ pub fn check_v5(enc: &v5::codec::Encoded, payload_len: usize, limit: u32, no_pro
             *clean = true;
         }
         let mut src = BytesMut::copy_from_slice(&rf::encode(Ver::V5, &c));
+        let announced__ = src.to_vec();
+        crate::check::b_enter("Codec::decode", &announced__);
         let _ = codec.decode(&mut src);
+        crate::check::b_leave();
     }
     let full_len = std::panic::catch_unwind(|| rf::encode(Ver::V5, &rf::canon(&want)).len()).unwrap_or(usize::MAX / 2);
     match enc_v5(&codec, enc.clone()) {
